@@ -426,7 +426,9 @@ class NArr:
             try:
                 dt2 = np.dtype(lower(args[0]))
                 copy = lower(kw["copy"]) if "copy" in kw else True
-                np.empty(1, self.dt).astype(dt2)
+                with warnings.catch_warnings(), np.errstate(all="ignore"):
+                    warnings.simplefilter("ignore")
+                    np.zeros(1, self.dt).astype(dt2)
             except NotConcrete as ex:
                 raise Unsupported(f"astype: {ex}")
             except Exception as ex:
@@ -2762,7 +2764,15 @@ def check_cast_target(ctx, M, res, timeout, all_values=False):
                     res.add(n2, UNKNOWN, None, 0.0, "engine", str(ex))
                     continue
                 goal = z3.And(valid_s, _as_real(val_s) == _as_real(val_p))
-                hyp = list(q.pc) + [events_ok(q)]
+                # the values the dataset column can hold: the range of its annotated integer type (UINT_32: 0 .. 2**32 - 1, INT_8: -128 .. 127)
+                cvn = f["converted"]
+                if pdt.kind == "f":
+                    in_col = z3.BoolVal(True)
+                else:
+                    bits = int(cvn.split("_")[1]) if cvn else pdt.itemsize * 8
+                    clo, chi = (0, 2 ** bits - 1) if (cvn or "").startswith("UINT") else (-2 ** (bits - 1), 2 ** (bits - 1) - 1)
+                    in_col = z3.And(_as_real(val_p) >= clo, _as_real(val_p) <= chi)
+                hyp = list(q.pc) + [events_ok(q), in_col]
                 st0, _, _ = solve(hyp, timeout)
                 if st0 == REFUTED:
                     res.vac["requires_sat"] += 1
@@ -2772,7 +2782,7 @@ def check_cast_target(ctx, M, res, timeout, all_values=False):
                             f"every {D} value that {annotation_name(f)} can hold (no narrowing / rounding / truncation needed) is written as itself")
                 else:
                     res.add(n2, PROVED, None, 0.0, "z3", f"no {D} value is guaranteed to survive the cast to {pdt} (always flagged as lossy): nothing claimed")
-                stw, mw, secsw = solve(list(q.pc) + [z3.Not(z3.And(events_ok(q), valid_s))], timeout)
+                stw, mw, secsw = solve(list(q.pc) + [z3.Not(z3.And(events_ok(q), valid_s, goal))], timeout)
                 if stw == REFUTED:
                     silent.append(key)
                 if all_values:
@@ -2792,6 +2802,8 @@ def check_cast_target(ctx, M, res, timeout, all_values=False):
                         out = np.asarray(M.writer.convert(row["make"]([val]), se))
                     nat = fractions.Fraction(float(out[0])) if out.dtype.kind == "f" else int(out[0])
                 except Exception:
+                    continue
+                if vdt.kind == "f" and not np.isfinite(np.array([val]).astype(vdt)[0]):
                     continue
                 sv = fractions.Fraction(float(np.array([val], dtype=vdt)[0])) if vdt.kind == "f" else int(val)
                 for q, v_, e in paths:
@@ -2838,6 +2850,8 @@ def _native_cast_case(M, name):
         try:
             with warnings.catch_warnings(), np.errstate(all="ignore"):
                 warnings.simplefilter("ignore")
+                if row["vdt"].kind == "f" and not np.isfinite(np.array([val]).astype(row["vdt"])[0]):
+                    continue
                 ser = row["make"]([val])
                 out = np.asarray(M.writer.convert(ser, se))
                 raw = bytes(M.writer.encode_plain(ser, se))
